@@ -14,7 +14,7 @@ func init() {
 	register(&Property{
 		ID:          "C18",
 		Engines:     []string{"cfg", "lockset"},
-		Explanation: "Stop, structural part (termination itself is liveness): Engine.Stop performs its steps in the order listeners -> snapshot under the engine mutex -> close every snapshot entry -> wgConn.Wait -> stop hook -> timer / IO pool -> IO pollers -> WaitGroup.Wait, with both waits on every path to the return (O1); poller.stop stores the shutdown flag before the wake-up and both loops re-read it every iteration (O2); every poller goroutine is started after Add(1), defers Done first and (IO pollers) the close of its descriptors, newPoller closes what it opened on each error exit, nbhttp.listen pairs Add with a deferred Done (O3); nbhttp Stop/Shutdown stop listeners, listener mux and pools in the required order (O4); lmux.Stop closes every listener and the close channel and Accept selects on it (O5); the connection WaitGroup Add/Done sites are the frozen sets (O6). The blocking readers' clean-up untracks, reports and releases on every path (O7); every torn-down connection reaches the close notification (O8). Only poller.stop writes the shutdown flag (O10); Shutdown's wait loop sweeps every iteration (O11). The plain reader closes its connection (O7); dialer registration failure without notification (O12); queue sends releasable by Stop (O13); transferred connections tracked before registration (O14). nbhttp.Stop sweeps the tracked connections (O4).",
+		Explanation: "Stop, structural part (termination itself is liveness): Engine.Stop performs its steps in the order listeners -> snapshot under the engine mutex -> close every snapshot entry -> wgConn.Wait -> stop hook -> timer / IO pool -> IO pollers -> WaitGroup.Wait, with both waits on every path to the return (O1); poller.stop stores the shutdown flag before the wake-up and both loops re-read it every iteration (O2); every poller goroutine is started after Add(1), defers Done first and (IO pollers) the close of its descriptors, newPoller closes what it opened on each error exit, nbhttp.listen pairs Add with a deferred Done (O3); nbhttp Stop/Shutdown stop listeners, listener mux and pools in the required order (O4); lmux.Stop closes every listener and the close channel and Accept selects on it (O5); the connection WaitGroup Add/Done sites are the frozen sets (O6). The blocking readers' clean-up untracks, reports and releases on every path (O7); every torn-down connection reaches the close notification (O8). Only poller.stop writes the shutdown flag (O10); Shutdown's wait loop sweeps every iteration (O11). The plain reader closes its connection (O7); dialer registration failure without notification (O12); queue sends releasable by Stop (O13); transferred connections tracked before registration (O14). nbhttp.Stop sweeps the tracked connections (O4). The acceptor adds what it accepts itself (O16); a connection published behind the sweep closes itself (O17); nbhttp's accept goroutine leaves on a closed listener (O18).",
 		NotCovered:  "that Stop returns; goroutine / descriptor counts; races of Stop with accepts and callbacks",
 		Run:         runC18,
 	})
